@@ -99,7 +99,7 @@ func check(c core.Case, out []string) *core.Failure {
 		switch {
 		case a == "drain-timeout":
 			key := "push-stuck"
-			if strings.Contains(c.Lines[0], " w") || strings.Contains(c.Lines[0], " z") {
+			if strings.Contains(c.Lines[0], " w") || strings.Contains(c.Lines[0], " z") || strings.Contains(c.Lines[0], " t") {
 				key = "call-stuck" // a Push or a PopWait did not return
 			}
 			return &core.Failure{Key: key, Desc: "round-robin scheduling of all threads did not complete every call (a Push, or a PopWait(<0) for which the generator guarantees a value) within " + strconv.Itoa(drive.DrainRounds) + " rounds"}
@@ -171,7 +171,7 @@ func check(c core.Case, out []string) *core.Failure {
 		switch {
 		case cr.Call == "l":
 			continue
-		case cr.Call == "o" || cr.Call == "w" || cr.Call == "z":
+		case cr.Call == "o" || cr.Call == "w" || cr.Call == "z" || (len(cr.Call) > 1 && cr.Call[0] == 't'):
 			o.Kind = lin.Pop
 			if !cr.Pending {
 				f := strings.Fields(cr.Ret) // pop <v> <ok>
@@ -245,6 +245,15 @@ func classify(c core.Case, out []string) []string {
 			call = progs[st.Tid][next[st.Tid]]
 			if st.Ret != "" {
 				next[st.Tid]++
+			}
+		}
+		if len(call) > 1 && call[0] == 't' {
+			seen["call-PopWait(>0)"] = true
+			if st.Ret == "pop 0 false" {
+				seen["popwait-timed-expired"] = true
+			}
+			if strings.HasPrefix(st.Ret, "pop") && strings.HasSuffix(st.Ret, "true") {
+				seen["popwait-timed-delivered"] = true
 			}
 		}
 		switch call {
